@@ -1008,9 +1008,9 @@ func coqCase(sc *Scenario, o *Outcome) string {
 		case "deadline":
 			fmt.Fprintf(&b, "D_ %d", it.C)
 		default:
-			st := 0
-			if it.Stale {
-				st = 1
+			st := it.Age // logical age in ms (capped: the model only compares it with small thresholds)
+			if st > 1000 {
+				st = 1000
 			}
 			ob := o.Obs[i]
 			fmt.Fprintf(&b, "S_ %d %d %d %d %d %d", it.C, it.HB, st, ob.Op, ob.Res, ob.Ret)
@@ -1259,7 +1259,8 @@ func replayOf(sc *Scenario, o *Outcome) *Scenario {
 
 func main() {
 	r := h.Init("C01")
-	r.Imports = []string{"GU.C01.Model"}
+	r.Imports = []string{"GU.C01.Model", "GU.C01.Gen"}
+	r.CheckFn = "check_case_gen" // check_case of the model instantiated with the facts regenerated from lockfile.go
 	r.ShardSize = 40
 	r.Rule("scheduled scenarios on the real RemoteLockFile (2..4 lock objects for one id/directory, OS directory and in-memory back ends, with/without stale override, dead holders, TryLock/Lock/LockWithTimeout/Unlock cycles), one backend operation per step; " +
 		"distinct = distinct sequences of (thread, operation, result class, return kind) with at least two acquire attempts")
